@@ -306,6 +306,46 @@ pub fn inputs(tier: Tier) -> Vec<(String, &'static str)> {
         v.push((format!("query \"Q\" {{\n goal: A.b == 1\n max-depth: {}\n max-solutions: {}\n}}", num, num), "numeric_extreme"));
         v.push((format!("rule R {{ when A.b == {} then A.c = {}; }}", num, num), "numeric_extreme"));
     }
+    // 9. module graphs: every shape of import graph a module file of <= 4 KiB can hold in regular families — chains,
+    //    fans, and layers of width 2 and 3 in which every module imports every module of the layer below (the number of
+    //    import *paths* grows exponentially with the number of layers, the number of modules linearly)
+    for layers in 1..=40usize {
+        for width in [1usize, 2, 3] {
+            for compact in [true, false] {
+                let names: Vec<String> = (0..width).map(|w| ["A", "B", "C"][w].to_string()).collect();
+                let mut text = String::new();
+                for k in 0..layers {
+                    for n in &names {
+                        if k == 0 {
+                            text.push_str(&if compact { format!("defmodule {}{}{{}}\n", n, k) } else { format!("defmodule {}{} {{\n  export: all\n}}\n", n, k) });
+                        } else {
+                            let imports: Vec<String> = names.iter().map(|m| if compact { format!("import:{}{}(rules)", m, k - 1) } else { format!("  import: {}{} (rules *)", m, k - 1) }).collect();
+                            text.push_str(&if compact { format!("defmodule {}{}{{{}}}\n", n, k, imports.join("\n")) } else { format!("defmodule {}{} {{\n{}\n  export: all\n}}\n", n, k, imports.join("\n")) });
+                        }
+                    }
+                }
+                text.push_str("rule \"R\" { when X.v > 1 then X.w = 2; }\n");
+                if text.len() <= 4096 {
+                    v.push((text, "module_graph"));
+                }
+            }
+        }
+    }
+    // fan-in / fan-out: one module importing n others, n modules importing one
+    for n in [1usize, 2, 4, 8, 16, 32, 64] {
+        let mut fan_in = String::new();
+        let mut fan_out = String::from("defmodule Z{}\n");
+        for i in 0..n {
+            fan_in.push_str(&format!("defmodule M{}{{}}\n", i));
+            fan_out.push_str(&format!("defmodule M{}{{import:Z(rules)}}\n", i));
+        }
+        fan_in.push_str(&format!("defmodule Z{{{}}}\n", (0..n).map(|i| format!("import:M{}(rules)", i)).collect::<Vec<_>>().join("\n")));
+        for t in [fan_in, fan_out] {
+            if t.len() <= 4096 {
+                v.push((format!("{}rule \"R\" {{ when X.v > 1 then X.w = 2; }}\n", t), "module_graph"));
+            }
+        }
+    }
     // de-duplicate, keep order
     let mut seen = BTreeSet::new();
     v.retain(|(s, _)| seen.insert(s.clone()));
@@ -419,7 +459,7 @@ pub fn run(opts: &Opts) -> Vec<Report> {
     rep.count("calls_slower_than_1s", slow_calls.len() as u64);
     rep.sample(json!({"input": ins[n / 3].0, "family": ins[n / 3].1}));
     rep.sample(json!({"input": ins[2 * n / 3].0, "family": ins[2 * n / 3].1}));
-    rep.bound = format!("{} distinct inputs x {} entry points: all token strings (len <= {} over 24 tokens, <= {} over 12) bare and in 3 holes of a rule skeleton; every 1-edit neighbour (truncation, token deletion/duplication/insertion, multi-byte insertion) of {} seeds; depth families n in 1..32, 48, 64, 128..4090 (balanced nesting <= 32); all strings of <= 2 scalars over 40 values; arithmetic: every operator between every pair of 16 operands (zero, extremes, negative, float, string, integer-zero / i64::MIN / missing fields) and two-operator chains with both parenthesisations; module markers x 16 tails; every unit of one or two tokens over 22 tokens repeated up to 4 KiB (bare, in a condition, in an action); numeric extremes x time units in stream windows, salience, query limits; watchdog {:?} per input, 8 MiB stack", n, SUBJECTS.len(), if opts.tier == Tier::Quick { 3 } else { 4 }, if opts.tier == Tier::Quick { 4 } else { 5 }, 11, timeout);
+    rep.bound = format!("{} distinct inputs x {} entry points: all token strings (len <= {} over 24 tokens, <= {} over 12) bare and in 3 holes of a rule skeleton; every 1-edit neighbour (truncation, token deletion/duplication/insertion, multi-byte insertion) of {} seeds; depth families n in 1..32, 48, 64, 128..4090 (balanced nesting <= 32); all strings of <= 2 scalars over 40 values; arithmetic: every operator between every pair of 16 operands (zero, extremes, negative, float, string, integer-zero / i64::MIN / missing fields) and two-operator chains with both parenthesisations; module markers x 16 tails; every unit of one or two tokens over 22 tokens repeated up to 4 KiB (bare, in a condition, in an action); numeric extremes x time units in stream windows, salience, query limits; module files with import graphs in chains, fans and layers of width 1-3 up to 4 KiB; watchdog {:?} per input, 8 MiB stack", n, SUBJECTS.len(), if opts.tier == Tier::Quick { 3 } else { 4 }, if opts.tier == Tier::Quick { 4 } else { 5 }, 11, timeout);
     rep.assumptions.push("a case is non-trivial by construction (each input is distinct and goes through all 13 entry points)".into());
     rep.wall_s = t0.elapsed().as_secs_f64();
     vec![rep]
